@@ -506,6 +506,15 @@ def gen_case(rng, kind, maxlen, extra=False):
     (extended slices, MutableSequence/MutableSet mixin methods): oracle-only stream."""
     attr, cs, nsets, ordered, hooks = KINDS[kind]
     pool = gen_pool(rng, kind)
+    # rollback probe (slice assignment with >= 2 accepted new items followed by a refused one): needs a
+    # collection of >= 3 children and two more acceptable elements, which random pools rarely give
+    probe = kind in ("sml", "toy_cs") and not extra and rng.random() < 0.35
+    if probe:
+        if hooks:
+            pool = [(None, 0, 1, None)] * 5 + [rng.choice([(None, 0, 2, None), (None, 2, 0, None), ("a", 0, 1, None)])]
+        else:
+            pool = [("a", 0, 1, None), ("b", 0, 1, None), ("Ab", 0, 1, None), ("A", 0, 1, None), ("aB", 0, 1, None),
+                    (rng.choice(["a", "A", None]), 0, 1, None)]
     ctx = Ctx(kind, pool)
     n = len(pool)
     ops = []
@@ -528,9 +537,22 @@ def gen_case(rng, kind, maxlen, extra=False):
         apply_op(ctx, op)
 
     nown = 0
-    for _ in range(2):
-        do(construct_op(nown))
-        nown += 1
+    if probe:
+        do(("construct", 0, True, (0, 1, None) if hooks else None, [[0, 1, 2]]))
+        do(("construct", 1, True, (0, 1, None) if hooks else None, [[5] if rng.random() < 0.5 else []]))
+        nown = 2
+        for _ in range(rng.choice([0, 0, 1, 2])):
+            do(rng.choice([("popat", 0, 0, rng.randrange(-3, 3)), ("insert", 0, 0, rng.randrange(-3, 3), rng.choice([3, 4])),
+                           ("remove", 0, 0, rng.randrange(3)),
+                           ("add", 1, 0, rng.choice([3, 4, 5])) if 1 in ctx.live else ("discard", 0, 0, 5)]))
+        last = rng.choice([0, 1, 2, 5, 5])       # contained here (collision) / refused class / owned by the other
+        if 0 in ctx.live:
+            do(("setslice", 0, 0, rng.choice([None, 0, -3]), rng.choice([None, 3, 7]),
+                rng.choice([[3, 4, last], [4, 3, last], [3, 4, last, 1], [3, last, 4]])))
+    else:
+        for _ in range(2):
+            do(construct_op(nown))
+            nown += 1
     if kind.startswith("toy"):
         for o in list(ctx.live):
             if rng.random() < 0.7:
